@@ -578,6 +578,12 @@ func guardOp(ifi *ssa.If) string {
 
 func r021Expand(c *Ctx) {
 	p, r := c.P, c.R
+	nClamping := 0
+	defer func() {
+		if nClamping == 0 {
+			r.Undecide("R02.1", "", "depth of the expand recursion", "", "no recursive function of internal/expand compares its depth with Config().MaxReadDepth(): the limit the recursion runs under is not the configured one (or is read somewhere this rule does not follow)")
+		}
+	}()
 	for _, fn := range p.KetoFuncs("internal/expand") {
 		if fn.Parent() != nil || depthParam(fn) == nil {
 			continue
@@ -589,10 +595,29 @@ func r021Expand(c *Ctx) {
 			if v, ok := ins.(ssa.Value); ok && isMaxReadDepthCall(v) {
 				clamps = true
 			}
+			// the clamp may sit in a helper of the package that is handed the depth
+			if ci, ok := ins.(*ssa.Call); ok {
+				if h := ci.Common().StaticCallee(); h != nil && h.Blocks != nil && h != fn && core.FuncPkg(h) == core.FuncPkg(fn) {
+					passesDepth := false
+					for _, a := range ci.Common().Args {
+						if core.ValueOrigin(a) == ssa.Value(depthParam(fn)) {
+							passesDepth = true
+						}
+					}
+					if passesDepth {
+						core.Instrs(h, func(_ *ssa.BasicBlock, _ int, i2 ssa.Instruction) {
+							if v, ok := i2.(ssa.Value); ok && isMaxReadDepthCall(v) {
+								clamps = true
+							}
+						})
+					}
+				}
+			}
 		})
 		if !clamps {
 			continue
 		}
+		nClamping++
 		// the recursive call: to fn itself, or to a helper of the package that calls back into fn
 		// (the loop over the children extracted into a function)
 		reachesFn := func(g *ssa.Function) bool {
